@@ -45,13 +45,33 @@ func (w *slowWriter) snapshot() []byte {
 
 // chunkReader hands out the data in the given chunk sizes (cyclically).
 type chunkReader struct {
-	data   []byte
-	chunks []int
-	i      int
+	data        []byte
+	chunks      []int
+	i           int
+	eofWithLast bool          // the last bytes and io.EOF come from one Read call
+	pause       time.Duration // silence between the last bytes and the end of input
+	paused      bool
+}
+
+// readerOptions parses the optional last field of a case: "-" | "e" | "p<ms>" | "e,p<ms>".
+func readerOptions(r *chunkReader, s string) {
+	for _, o := range strings.Split(s, ",") {
+		switch {
+		case o == "e":
+			r.eofWithLast = true
+		case strings.HasPrefix(o, "p"):
+			ms, _ := strconv.Atoi(o[1:])
+			r.pause = time.Duration(ms) * time.Millisecond
+		}
+	}
 }
 
 func (r *chunkReader) Read(p []byte) (int, error) {
 	if len(r.data) == 0 {
+		if r.pause > 0 && !r.paused {
+			r.paused = true
+			time.Sleep(r.pause)
+		}
 		return 0, io.EOF
 	}
 	n := r.chunks[r.i%len(r.chunks)]
@@ -64,6 +84,9 @@ func (r *chunkReader) Read(p []byte) (int, error) {
 	}
 	copy(p, r.data[:n])
 	r.data = r.data[n:]
+	if len(r.data) == 0 && r.eofWithLast {
+		return n, io.EOF
+	}
 	return n, nil
 }
 
@@ -85,7 +108,7 @@ func settle(f func() int) {
 	}
 }
 
-// case: display <hex> <latency us> <chunk sizes a.b.c>
+// case: display <hex> <latency us> <chunk sizes a.b.c> [reader options]
 // obs:  atreturn=<bytes>/<entries> final=<bytes>/<entries> ms=<time to return>
 func TestVerifRun(t *testing.T) {
 	path := os.Getenv("VERIF_CASES")
@@ -129,7 +152,11 @@ func TestVerifRun(t *testing.T) {
 		done := make(chan bool, 1)
 		var atReturn []byte
 		go func() {
-			HandleMessages(start, &chunkReader{data: data, chunks: chunks}, w, &cfg)
+			rd := &chunkReader{data: data, chunks: chunks}
+			if len(f) > 4 {
+				readerOptions(rd, f[4])
+			}
+			HandleMessages(start, rd, w, &cfg)
 			atReturn = w.snapshot()
 			done <- true
 		}()
